@@ -5,6 +5,8 @@ import AmrK.Column
 import AmrK.Pestle
 import AmrK.Header
 import AmrK.WritersChef
+import AmrK.Scan
+import AmrK.TasteAll
 /-! `amrk-driver`: one JSON object per line in, one JSON object per line out.
     Executable definitions of the model only (no Mathlib behind any import). -/
 open Lean
@@ -56,6 +58,14 @@ def opRead (files : Std.HashMap String Bytes) (j : Json) : Except String Json :=
   | none => return Json.mkObj [("status", "refused")]
   | some o => return Json.mkObj [("status", "ok"), ("shape", toJson o.shape), ("data", toJson (hex (o.comps.flatten)))]
 
+/-! ### sequential scan of one binary file (level iteration, single field) -/
+def opScan (files : Std.HashMap String Bytes) (j : Json) : Except String Json := do
+  let name ← (← j.getObjVal? "name").getStr?
+  let f ← (← j.getObjVal? "field").getNat?
+  let raw := files.getD name []
+  let blocks := Scan.scan raw f (raw.length + 1) 0
+  return Json.mkObj [("status", "ok"), ("blocks", toJson (blocks.map hex))]
+
 /-! ### taste, one level -/
 def opTaste (j : Json) : Except String Json := do
   let cellH ← (← j.getObjVal? "cellh").getStr?
@@ -64,6 +74,32 @@ def opTaste (j : Json) : Except String Json := do
   let files := fs.toList.map fun (k, v) => (k, unhex (v.getStr?.toOption.getD ""))
   let (ok, why) := Taste.tasteLevel (unhex cellH) nf files
   return Json.mkObj [("good", toJson ok), ("why", toJson why)]
+
+/-! ### taste, whole plotfile; contents are referred to by the keys of earlier `file` ops -/
+def opTastePlt (files : Std.HashMap String Bytes) (j : Json) : Except String Json := do
+  let hk ← (← j.getObjVal? "header").getStr?
+  let limit : Option Int := (j.getObjValAs? Int "limit").toOption
+  let chkH := (j.getObjValAs? Bool "headers").toOption.getD true
+  let chkS := (j.getObjValAs? Bool "shape").toOption.getD true
+  let ds ← (← j.getObjVal? "dirs").getObj?
+  let dirs ← ds.toList.mapM fun (name, d) => do
+    let cellH : Option Bytes := match d.getObjVal? "cellh" with
+      | .ok (.str k) => some (files.getD k [])
+      | _ => none
+    let fs ← (← d.getObjVal? "files").getObj?
+    let fl := fs.toList.map fun (n, k) => (n, files.getD (k.getStr?.toOption.getD "") [])
+    return (name, ({ cellH := cellH, files := fl } : Taste.LevelDir))
+  let (ok, why) := Taste.tastePlt (files.getD hk []) limit dirs chkH chkS
+  return Json.mkObj [("good", toJson ok), ("why", toJson why)]
+
+/-! ### level header (Cell_H) -/
+def opCellH (j : Json) : Except String Json := do
+  let text := unhex (← (← j.getObjVal? "hex").getStr?)
+  let nf ← (← j.getObjVal? "nfields").getNat?
+  match Taste.parseCellH text nf with
+  | .bad why => return Json.mkObj [("status", "refused"), ("why", toJson why)]
+  | .ok es => return Json.mkObj [("status", "ok"),
+      ("entries", toJson (es.map fun e => Json.mkObj [("lo", toJson e.lo), ("hi", toJson e.hi), ("file", toJson e.file), ("offset", toJson e.offset)]))]
 
 /-! ### mandoline column -/
 open Column in
@@ -188,7 +224,10 @@ partial def loop (h : IO.FS.Stream) (out : IO.FS.Stream) (files : Std.HashMap St
       let r : Except String Json :=
         match op with
         | "read" => opRead files j
+        | "scan" => opScan files j
         | "taste" => opTaste j
+        | "cellh" => opCellH j
+        | "taste_plt" => opTastePlt files j
         | "column" => opColumn j
         | "pestle" => opPestle j
         | "header" => opHeader j
